@@ -359,7 +359,9 @@ def lmtp_data(e, rep, g, where, apps, wires):
               'the LMTP data method sends the content %s times'
               % sorted(cw or []), reason='one DataSender.send / "."',
               loc=g.entry.loc())
-    loops = [n for n in g.of_kind('iter') if isinstance(n.ast, ast.For) and
+    # (a `for` statement, or the comprehension that builds the pairs)
+    loops = [n for n in g.of_kind('iter')
+             if isinstance(n.ast, (ast.For, ast.comprehension)) and
              canon(n.ast.iter, n.frame) == 'self.rcpttos']
     rep.check(bool(loops) and bool(apps), 'F2', where,
               'one owed reply per recorded recipient',
@@ -382,9 +384,17 @@ def lmtp_data(e, rep, g, where, apps, wires):
     for lp in loops:
         counts = common.per_iteration_counts(
             g, lp, lambda n: 1 if n in apps else 0)
-        rets = common.per_iteration_counts(
-            g, lp, lambda n: 1 if n.kind == 'call' and
-            e.call_name(n) == 'append' and n not in apps else 0)
+        if isinstance(lp.ast, ast.comprehension):
+            # one pair per element the comprehension produces
+            rets = common.per_iteration_counts(
+                g, lp, lambda n: 1 if n.kind == 'nop' and
+                n.extra.get('comp_elt') is not None and any(
+                    c is lp.ast for c in n.extra['comp_elt'].generators)
+                else 0)
+        else:
+            rets = common.per_iteration_counts(
+                g, lp, lambda n: 1 if n.kind == 'call' and
+                e.call_name(n) == 'append' and n not in apps else 0)
         rep.check(counts <= frozenset([0, 1]) and counts == rets, 'F2',
                   where, 'queued replies and returned pairs agree',
                   'per recipient the method queues %s replies but returns '
